@@ -333,14 +333,22 @@ class ObserverWiring(Target):
     def externs(self, c, st):
         g = c.ghost
         chain = Obj('observable')
-        chain.pipe = Extern('pipe', lambda c, *a: chain)
+        g['ops'] = []
+
+        def pipe(c, *ops):
+            g['ops'].extend(ops)
+            return chain
+        chain.pipe = Extern('pipe', pipe)
         chain.subscribe = Extern('subscribe', lambda c, **k: 'disposable')
 
         def merge(c, *sources):
             g['merged'] = list(sources)
             return chain
         return {'reactivex.merge': Extern('reactivex.merge', merge),
-                'op.observe_on': Extern('op.observe_on', lambda c, *a: 'op'), 'op.filter': Extern('op.filter', lambda c, *a: 'op'),
+                'op.observe_on': Extern('op.observe_on', lambda c, *a: ('observe_on',)), 'op.filter': Extern('op.filter', lambda c, *a: ('filter',)),
+                # operators that END the merged stream early: the completion callback is what tells the engine
+                'op.take': Extern('op.take', lambda c, n: ('take', n)), 'op.first': Extern('op.first', lambda c, *a: ('take', 1)),
+                'op.take_while': Extern('op.take_while', lambda c, *a: ('take', 0)),
                 'experiment.runtime.utilities.rx.report_exceptions': Extern('report_exceptions', lambda c, f, *a, **k: f),
                 'ComponentState.componentScheduler': 'scheduler'}
 
@@ -350,8 +358,18 @@ class ObserverWiring(Target):
         g = c.ghost
         alive = [p.notifyFinished for p in st.prods if p._alive]
         merged = g['merged'] or []
-        return [('told-at-once-only-when-no-producer-is-alive', (g['notified'] == 1) == (not alive)),
-                ('waits-for-every-producer-that-is-still-alive', set(merged) == set(alive))]
+        cl = [('told-at-once-only-when-no-producer-is-alive', (g['notified'] == 1) == (not alive)),
+              ('waits-for-every-producer-that-is-still-alive', set(merged) == set(alive))]
+        # the merged stream completes when every source has; an operator that completes it after k items (take) must not be
+        # able to fire while a producer is still alive: every producer emits one item per time it was merged
+        takes = [op[1] for op in g.get('ops', []) if isinstance(op, tuple) and op and op[0] == 'take']
+        if takes and alive:
+            import itertools
+            k = min(takes)
+            mult = {a: merged.count(a) for a in set(alive)}
+            early = any(sum(mult[a] for a in sub) >= k for r in range(0, len(mult)) for sub in itertools.combinations(sorted(mult), r))
+            cl.append(('the-stream-cannot-complete-while-a-producer-is-alive', not early))
+        return cl
 
     def cross_compare(self, *a):
         return []
